@@ -1,0 +1,32 @@
+use crate::set::list::SetList;
+use crate::set::node::Color;
+use crate::set::tree::SetTree;
+use crate::verif::{VerifSlot, VerifTree};
+
+impl<K, V: Clone> SetTree<K, V> {
+    pub fn verif_snapshot(&self) -> VerifTree<V> {
+        VerifTree {
+            root: self.root,
+            slots: self
+                .store
+                .buffer
+                .iter()
+                .map(|n| VerifSlot {
+                    parent: n.parent,
+                    left: n.left,
+                    right: n.right,
+                    red: n.color == Color::Red,
+                    item: n.value.clone(),
+                })
+                .collect(),
+            unused: self.store.unused.clone(),
+            unused_capacity: self.store.unused.capacity(),
+        }
+    }
+}
+
+impl<V: Clone> SetList<V> {
+    pub fn verif_values(&self) -> Vec<V> {
+        self.buffer.clone()
+    }
+}
